@@ -1,6 +1,6 @@
 (* Stats.v — utils/stats.rs: CodesStats (update, update_many, add, best_code). *)
 From DSI Require Export Dispatch.
-From DSI.Gen Require Export GenParams GenTables.
+From DSI.Gen Require Export GenParams GenTables GenStats.
 
 Record stats := {
   st_total : N; st_unary : N; st_gamma : N; st_delta : N; st_omega : N; st_vbyte : N;
